@@ -315,7 +315,7 @@ func (u *multiUpdateExecutor) buildBeforeImageSQL(args []driver.NamedValue, meta
 		newArgs = append(newArgs, u.buildSelectArgs(&tmpSelectStmt, args)...)
 
 		in := bytes.NewByteBuffer([]byte{})
-		_ = restoreUnqualified(updateStmt.Where, format.NewRestoreCtx(format.RestoreKeyWordUppercase, in))
+		_ = restoreUnqualified(updateStmt.Where, updateStmt.TableRefs, multiStmts[0].UpdateStmt.TableRefs, format.NewRestoreCtx(format.RestoreKeyWordUppercase, in))
 
 		if whereCondition.Len() > 0 {
 			whereCondition.Write([]byte(" OR "))
